@@ -11,6 +11,7 @@ import (
 
 	"github.com/tendermint/tendermint/libs/kv"
 	tmrpccore "github.com/tendermint/tendermint/rpc/core"
+	tmctypes "github.com/tendermint/tendermint/rpc/core/types"
 
 	"github.com/Oneledger/protocol/data/governance"
 	"github.com/Oneledger/protocol/data/network_delegation"
@@ -786,8 +787,21 @@ func handleBlockRewards(appCtx *context, block RequestBeginBlock, logger *log.Lo
 	return result
 }
 
+// lookupIndexedTx asks Tendermint's tx index for a transaction. While the node
+// is still being constructed (handshake replay after a crash) the index is not
+// installed yet and the lookup panics on the nil indexer; nothing of a block
+// that is being replayed has been indexed, so that case reads as "not found".
+func lookupIndexedTx(hash []byte) (tx *tmctypes.ResultTx, err error) {
+	defer func() {
+		if r := recover(); r != nil {
+			tx, err = nil, fmt.Errorf("tx index not available: %v", r)
+		}
+	}()
+	return tmrpccore.Tx(nil, hash, false)
+}
+
 func (app *App) GetTxFromCache(hash []byte) (abciTypes.ResponseDeliverTx, bool) {
-	tx, err := tmrpccore.Tx(nil, hash, false)
+	tx, err := lookupIndexedTx(hash)
 	app.logger.Debugf("Got reply for exist by tx hash: %s, err: %s\n", ethcmn.Bytes2Hex(hash), err)
 	if tx != nil && tx.Height > 0 {
 		return tx.TxResult, true
@@ -796,7 +810,7 @@ func (app *App) GetTxFromCache(hash []byte) (abciTypes.ResponseDeliverTx, bool) 
 }
 
 func (app *App) VerifyCache(tx []byte) bool {
-	reply, err := tmrpccore.Tx(nil, utils.GetTransactionHash(tx), false)
+	reply, err := lookupIndexedTx(utils.GetTransactionHash(tx))
 	app.logger.Debugf("Got reply for exist tx: %+v, err: %s\n", reply, err)
 	if reply != nil && reply.Height > 0 {
 		return true
